@@ -30,36 +30,41 @@ DECIDED = ["a cycle time term", "b wait loop", "c stop", "d end of run", "e due 
 NOT_DECIDED = ["timing / latency", "OS scheduling", "host clock monotonicity"]
 
 
+def advance_realtime_table(run: Run, rule: str) -> None:
+    fa = R.fn(run, EXEC, "advance_realtime")
+    roles = [Role("N", "t", r"next_scheduled_time"), Role("END", "t", r"state\.end_time"),
+             Role("NOW", "t", r"state\.evaluation_time"), Role("NOW1", "t", None, succ_of="NOW"),
+             Role("WALL0", "t", r"current_wall_time\(\)", epoch=("X", 0)),
+             Role("WALL1", "t", r"current_wall_time\(\)", epoch=("X", 1), required=False),
+             Role("PENDING", "bool", r"state\.push_update_pending"),
+             Role("STOP", "bool", r"state\.stop_requested\.load\(.*\)"),
+             Role("CONSEC", "n", r"state\.consecutive_immediate_cycles"), Role("LIMIT", "n", r"max_immediate_drain_cycles")]
+
+    def spec(v):
+        target = v.min("N", "END")
+        wake = v.b("PENDING") or v.b("STOP")
+        calls = []
+        wall = "WALL0"
+        if v.lt("WALL0", target) and not wake:
+            calls.append(("WAIT", (ANY, ANY, ANY)))
+            wall = "WALL1"
+        nxt = v.min(target, v.max(wall, "NOW1"))
+        if v.ge(wall, "END") and v.le(nxt, "NOW1") and v.ge("CONSEC", "LIMIT"):
+            return Expect(calls=calls + [("SET", ("END",))], ret="END")
+        return Expect(calls=calls + [("SET", (nxt,))], ret=nxt)
+    R.k1(run, rule, fa, roles, spec, role_calls={"WAIT": r"state\.condition\.wait_for", "SET": r"state\.set_evaluation_time",
+                                                   "BADWAIT": r"state\.condition\.(wait|wait_until)"},
+         invalidate={r"state\.condition\.wait_for": "X"}, what="advance_realtime")
+
+
+
 def check(run: Run) -> None:
     t = run.tree
 
     with run.obligation("C17.a", "K6", "advance_realtime: T = min(target, max(wall, NOW+MIN_TD)), target = min(next, END); waits only "
                         "while wall < target and no wake requested; drain cut-off returns END iff wall>=END and T<=NOW+MIN_TD and the "
                         "counter reached the limit"):
-        fa = R.fn(run, EXEC, "advance_realtime")
-        roles = [Role("N", "t", r"next_scheduled_time"), Role("END", "t", r"state\.end_time"),
-                 Role("NOW", "t", r"state\.evaluation_time"), Role("NOW1", "t", None, succ_of="NOW"),
-                 Role("WALL0", "t", r"current_wall_time\(\)", epoch=("X", 0)),
-                 Role("WALL1", "t", r"current_wall_time\(\)", epoch=("X", 1), required=False),
-                 Role("PENDING", "bool", r"state\.push_update_pending"),
-                 Role("STOP", "bool", r"state\.stop_requested\.load\(.*\)"),
-                 Role("CONSEC", "n", r"state\.consecutive_immediate_cycles"), Role("LIMIT", "n", r"max_immediate_drain_cycles")]
-
-        def spec(v):
-            target = v.min("N", "END")
-            wake = v.b("PENDING") or v.b("STOP")
-            calls = []
-            wall = "WALL0"
-            if v.lt("WALL0", target) and not wake:
-                calls.append(("WAIT", (ANY, ANY, ANY)))
-                wall = "WALL1"
-            nxt = v.min(target, v.max(wall, "NOW1"))
-            if v.ge(wall, "END") and v.le(nxt, "NOW1") and v.ge("CONSEC", "LIMIT"):
-                return Expect(calls=calls + [("SET", ("END",))], ret="END")
-            return Expect(calls=calls + [("SET", (nxt,))], ret=nxt)
-        R.k1(run, "C17.a", fa, roles, spec, role_calls={"WAIT": r"state\.condition\.wait_for", "SET": r"state\.set_evaluation_time",
-                                                       "BADWAIT": r"state\.condition\.(wait|wait_until)"},
-             invalidate={r"state\.condition\.wait_for": "X"}, what="advance_realtime")
+        advance_realtime_table(run, "C17.a")
 
     with run.obligation("C17.b", "K8+K2", "the wait loop runs under unique_lock(state.mutex), uses wait_for(lock, min(target-wall, "
                         "max_wait_slice), predicate) and re-reads the wall clock after every wait"):
